@@ -54,6 +54,9 @@ class Parameter:
         self.width = 0.0
 
     def set_boundaries(self, lower, upper):
+        # (limits given as integer or narrow floating-point numpy scalars would have
+        # their width, and every fold, computed in that type)
+        lower, upper = float(lower), float(upper)
         if lower < upper:
             self.upper = upper
             self.lower = lower
